@@ -13,6 +13,7 @@ Generated files (rewritten only when their content changes, so `make` stays incr
   GenFormulas.v  integer index formulas + unit factors + projected distance/area formulas
   GenCodec.v     from_array / to_array of core_d8 / core_ldd / core_nextxy (tools/gen_codec.py)
   GenUpscale.v   the non-iterative upscaling kernels of upscale.py (tools/gen_upscale.py)
+  GenIhu.v       next_outlet, outlet_pix, upscale_check, new_outlet, ihu_optimize_rivlen, ihu_minimize_error, ihu (driver), core._d8_idx / _upstream_d8_idx (tools/gen_ihu.py)
   GenCore.v      rank, loop_indices, upstream_matrix, idxs_seq, _trace, path, snap, _window of core.py (tools/gen_core.py)
   GenHeap.v      dem.fill_depressions (max_depth = -1, no elv_max), gis_utils.spread2d (projected grids), gis_utils.get_edge (tools/gen_heap.py)
   GenSeg.v       streams.streams, subgrid.segment_* / ucat_volume, basins._tributaries / subbasins_pfafstetter (tools/gen_seg.py)
@@ -389,6 +390,7 @@ if __name__ == "__main__":
     import gen_loops  # noqa: F401
     import gen_codec  # noqa: F401  (raster codecs -> GenCodec.v)
     import gen_upscale  # noqa: F401  (non-iterative upscaling kernels -> GenUpscale.v)
+    import gen_ihu  # noqa: F401  (iterative stages of upscale.ihu -> GenIhu.v)
     import gen_core  # noqa: F401  (while-loop kernels of core.py -> GenCore.v)
     import gen_seg  # noqa: F401  (streams, segment_*, ucat_volume, Pfafstetter -> GenSeg.v)
     import gen_heap  # noqa: F401  (priority-queue kernels fill_depressions, spread2d, get_edge -> GenHeap.v)
